@@ -1146,7 +1146,29 @@ func (schema *Schema) VisitJSON(value any, opts ...SchemaValidationOption) error
 	return schema.visitJSON(settings, value)
 }
 
+// visitJSONMember applies schema to a member (array item, object property) of the value at hand.
+func (schema *Schema) visitJSONMember(settings *schemaValidationSettings, value any) error {
+	applying := settings.applying
+	settings.applying = nil
+	defer func() { settings.applying = applying }()
+	return schema.visitJSON(settings, value)
+}
+
 func (schema *Schema) visitJSON(settings *schemaValidationSettings, value any) (err error) {
+	if _, ok := settings.applying[schema]; ok {
+		return &SchemaError{
+			Value:                 value,
+			Schema:                schema,
+			Reason:                "schema refers to itself through not, allOf, anyOf or oneOf",
+			customizeMessageError: settings.customizeMessageError,
+		}
+	}
+	if settings.applying == nil {
+		settings.applying = make(map[*Schema]struct{})
+	}
+	settings.applying[schema] = struct{}{}
+	defer delete(settings.applying, schema)
+
 	switch value := value.(type) {
 	case nil:
 		// Don't use VisitJSONNull, as we still want to reach 'visitXOFOperations', since
@@ -1914,7 +1936,7 @@ func (schema *Schema) visitJSONArray(settings *schemaValidationSettings, value [
 			return foundUnresolvedRef(itemSchemaRef.Ref)
 		}
 		for i, item := range value {
-			if err := itemSchema.visitJSON(settings, item); err != nil {
+			if err := itemSchema.visitJSONMember(settings, item); err != nil {
 				err = markSchemaErrorIndex(err, i)
 				if !settings.multiError {
 					return err
@@ -2035,7 +2057,7 @@ func (schema *Schema) visitJSONObject(settings *schemaValidationSettings, value 
 				if p == nil {
 					return foundUnresolvedRef(propertyRef.Ref)
 				}
-				if err := p.visitJSON(settings, v); err != nil {
+				if err := p.visitJSONMember(settings, v); err != nil {
 					if settings.failfast {
 						return errSchema
 					}
@@ -2054,7 +2076,7 @@ func (schema *Schema) visitJSONObject(settings *schemaValidationSettings, value 
 		}
 		if allowed := schema.AdditionalProperties.Has; allowed == nil || *allowed {
 			if additionalProperties != nil {
-				if err := additionalProperties.visitJSON(settings, v); err != nil {
+				if err := additionalProperties.visitJSONMember(settings, v); err != nil {
 					if settings.failfast {
 						return errSchema
 					}
